@@ -241,6 +241,47 @@ theorem duplicate_reproduces (hq : 2 * n < N) (hr : rcond = 0) (k : KernelOK pin
     simp [this]
   · intro h; exact absurd (Finset.mem_univ _) h
 
+/-! #### duplicate sensor without invertibility
+
+`duplicate_matrix`, `duplicate`, `duplicate_reproduces` need `rcond = 0` AND `IsUnit (det C_offoff)`: with a singular
+`C_offoff` the selection matrix is only ONE of the solutions of the normal equations and `pinv` returns the minimum-norm
+one, which need not be it.  What survives for every symmetric PSD `C` (zero conditioning): the reconstructor and the
+selection matrix agree on everything the off-axis slopes can do — `R·C_offoff = E·C_offoff`, equivalently the
+difference `(R − E)·s_off` has zero variance. -/
+
+/-- the selection matrix "copy the `2n` slopes that start at off-axis position `k0`" -/
+def selE (N n k0 : ℕ) : Matrix (Fin (2 * n)) (Fin (N - 2 * n)) ℝ :=
+  Matrix.of fun i j => if (j : ℕ) = k0 + i then (1 : ℝ) else 0
+
+/-- duplicated rows: the cross-covariance is the selection of the off-axis covariance -/
+theorem conoff_eq_sel (hq : 2 * n < N) (k0 : ℕ) (hk0 : k0 + 2 * n ≤ N - 2 * n)
+    (hdup : ∀ i < 2 * n, ∀ j < N, C i j = C (2 * n + k0 + i) j) :
+    Conoff N n C = selE N n k0 * Aoff N n C := by
+  ext i j
+  have hi := i.isLt; have hj := j.isLt
+  rw [Matrix.mul_apply]
+  have hidx : k0 + (i : ℕ) < N - 2 * n := by omega
+  rw [Finset.sum_eq_single (⟨k0 + i, hidx⟩ : Fin (N - 2 * n))]
+  · simp only [selE, Matrix.of_apply, toMat_apply, covOnOff, covOffOff, if_true, one_mul]
+    rw [hdup i hi (2 * n + j) (by omega)]; congr 1; omega
+  · intro b _ hb
+    have : (b : ℕ) ≠ k0 + i := fun h => hb (Fin.ext h)
+    simp [selE, this]
+  · intro h; exact absurd (Finset.mem_univ _) h
+
+/-- **duplicate sensor, `C` symmetric PSD, `C_offoff` possibly singular** (zero conditioning): `R·C_offoff = E·C_offoff`,
+and the residual `(R − E)·s_off` has zero variance `(R − E)·C_offoff·(R − E)ᵀ = 0` -/
+theorem duplicate_psd (hq : 2 * n < N) (hr : rcond = 0) (hC : (toMat N N C).PosSemidef)
+    (k : KernelOK pinv N n rcond C) (k0 : ℕ) (hk0 : k0 + 2 * n ≤ N - 2 * n)
+    (hdup : ∀ i < 2 * n, ∀ j < N, C i j = C (2 * n + k0 + i) j) :
+    Rm pinv N n rcond C * Aoff N n C = selE N n k0 * Aoff N n C
+      ∧ (Rm pinv N n rcond C - selE N n k0) * Aoff N n C * (Rm pinv N n rcond C - selE N n k0)ᵀ = 0 := by
+  have h1 : Rm pinv N n rcond C * Aoff N n C = selE N n k0 * Aoff N n C := by
+    rw [normal_eq_psd pinv N n rcond C hq hr hC k]
+    exact conoff_eq_sel N n C hq k0 hk0 hdup
+  refine ⟨h1, ?_⟩
+  rw [Matrix.sub_mul, h1, sub_self, Matrix.zero_mul]
+
 /-! ### the functional `J` is the expected squared residual -/
 
 /-- for covariance blocks that are the second moments of ANY finite sample of slope vectors (every symmetric PSD
@@ -363,6 +404,43 @@ noncomputable example : NumpyPinv 2 (3/4) ex2A ex2P where
 /-- duplicate-sensor hypothesis: `C = [[I,I],[I,I]]` (4×4, n = 1, k0 = 0) has rows 0,1 equal to rows 2,3 -/
 example : ∃ C : Mat ℝ, (∀ i < 2 * 1, ∀ j < 4, C i j = C (2 * 1 + 0 + i) j) ∧ C 0 2 = 1 :=
   ⟨fun i j => if i % 2 = j % 2 then 1 else 0, by intro i hi j hj; simp [Nat.add_mod], by simp⟩
+
+/-- the hypotheses of `duplicate_psd` hold together on a matrix whose `C_offoff` is SINGULAR (so that `duplicate` does
+not apply): `C = v vᵀ`, `v = e₀ + e₂` (4×4, n = 1, k0 = 0), `C_offoff = [[1,0],[0,0]]`, kernel `u = vt = 1`, `s = (1,0)` -/
+def exS : Mat ℝ := fun i j => if (i = 0 ∨ i = 2) ∧ (j = 0 ∨ j = 2) then 1 else 0
+def exSP : ℕ → ℝ → Mat ℝ → Mat ℝ := fun _ _ _ i j => if i = 0 ∧ j = 0 then 1 else 0
+
+example : (toMat 4 4 exS).PosSemidef := by
+  have : toMat 4 4 exS = (!![1; 0; 1; 0] : Matrix (Fin 4) (Fin 1) ℝ) * (!![1; 0; 1; 0] : Matrix (Fin 4) (Fin 1) ℝ)ᴴ := by
+    ext i j; fin_cases i <;> fin_cases j <;> simp [exS, Matrix.mul_apply]
+  rw [this]; exact posSemidef_self_mul_conjTranspose _
+
+example : (∀ i < 2 * 1, ∀ j < 4, exS i j = exS (2 * 1 + 0 + i) j) ∧ ¬ IsUnit (Aoff 4 1 exS).det := by
+  constructor
+  · intro i hi j _
+    have : i = 0 ∨ i = 1 := by omega
+    rcases this with rfl | rfl <;> simp [exS]
+  · have : (Aoff 4 1 exS).det = 0 := by
+      have e : Aoff 4 1 exS = (!![1, 0; 0, 0] : Matrix (Fin 2) (Fin 2) ℝ) := by
+        ext i j; fin_cases i <;> fin_cases j <;> simp [covOffOff, exS]
+      rw [e]; simp [Matrix.det_fin_two]
+    rw [this]; simp
+
+noncomputable example : KernelOK exSP 4 1 0 exS where
+  u := fun i j => if i = j then 1 else 0
+  sv := fun i => if i = 0 then 1 else 0
+  vt := fun i j => if i = j then 1 else 0
+  orth_u := by
+    ext i j; fin_cases i <;> fin_cases j <;> simp [Matrix.mul_apply, Fin.sum_univ_two]
+  orth_vt := by
+    ext i j; fin_cases i <;> fin_cases j <;> simp [Matrix.mul_apply, Fin.sum_univ_two]
+  sv_nonneg := fun i _ => by split_ifs <;> norm_num
+  factor := by
+    ext i j; fin_cases i <;> fin_cases j <;>
+      simp [Matrix.mul_apply, Fin.sum_univ_two, covOffOff, exS, Matrix.diagonal_apply]
+  out := by
+    ext i j; fin_cases i <;> fin_cases j <;>
+      simp [exSP, pinvFromSvd, sumTo_eq_sum, Finset.sum_range_succ, truncInv_eq, sigMax, List.range_succ]
 
 end NonVacuity
 
